@@ -121,6 +121,9 @@ func (g *Polygon) IntersectsPoly(poly *geometry.Poly) bool {
 }
 
 func (g *Polygon) NumPoints() int {
+	if g.base.Exterior == nil {
+		return 0
+	}
 	n := g.base.Exterior.NumPoints()
 	for _, hole := range g.base.Holes {
 		n += hole.NumPoints()
